@@ -449,6 +449,33 @@ func checkC17(p *Prog, r *Report) {
 			}
 		}
 	}
+	/* One table per From call: the per-file converter works from what its
+	caller hands it (the snapshot the file was selected under), not from
+	the live table, which SetFilter may have changed since the directory
+	was globbed. */
+	if nil != filtersF && nil != fd {
+		var live ssa.Instruction
+		for _, f := range withAnons(fr) {
+			eachInstr(f, func(i ssa.Instruction) {
+				if u, ok := i.(*ssa.UnOp); ok && token.MUL == u.Op && nil == live {
+					if fv, _ := fieldAddrOf(u.X); fv == filtersF {
+						live = i
+					}
+				}
+			})
+		}
+		calledFromDir := false
+		for _, ci := range p.callersOf(fr) {
+			if topFn(ci.Parent()) == fd {
+				calledFromDir = true
+			}
+		}
+		if nil != live && calledFromDir {
+			rDet.Bad(fnName(fr)+":one-table-per-call", posOf(live), "the per-file converter reads the converter's live filter table instead of the table its caller selected the file under: a pattern removed in between leaves a selected file without a filter, and the whole conversion fails")
+		} else {
+			rDet.OK(fnName(fr)+":one-table-per-call", fr.Pos(), "the per-file converter does not read the live table")
+		}
+	}
 	for k, pa := range fr.Params {
 		if _, isMap := pa.Type().Underlying().(*types.Map); !isMap {
 			continue
@@ -479,6 +506,53 @@ func checkC17(p *Prog, r *Report) {
 	the table changes: on every path of every function which adds to or
 	deletes from Converter.filters, before or after the change. */
 	checkFilterSnapshot(p, rDet, filtersF)
+	/* The table holds usable filters only: a nil filter given to SetFilter
+	deletes the pattern; stored, the pattern would still select files
+	which nothing can convert. */
+	if nil != filtersF {
+		for _, fn := range p.Funcs() {
+			if nil == fn.Pkg || !strings.HasSuffix(fn.Pkg.Pkg.Path(), "/"+sffPkg) {
+				continue
+			}
+			eachInstr(fn, func(i ssa.Instruction) {
+				mu, ok := i.(*ssa.MapUpdate)
+				if !ok {
+					return
+				}
+				if fv, _ := loadedField(stripConv(mu.Map, false)); fv != filtersF {
+					return
+				}
+				pa, isParam := stripConv(mu.Value, false).(*ssa.Parameter)
+				if !isParam {
+					return
+				}
+				c := fnName(fn) + ":no-nil-filter"
+				guarded := false
+				for _, b := range fn.Blocks {
+					ifi := blockIf(b)
+					if nil == ifi {
+						continue
+					}
+					dc := decodeCond(ifi.Cond)
+					if dc.X != ssa.Value(pa) || nil == dc.Y || !isNilConst(dc.Y) {
+						continue
+					}
+					nonNil := 1
+					if !dc.Eq {
+						nonNil = 0
+					}
+					if edgeDominates(ifi, nonNil, i) {
+						guarded = true
+					}
+				}
+				if guarded {
+					rDet.OK(c, posOf(i), "only a non-nil filter is stored")
+				} else {
+					rDet.Bad(c, posOf(i), "a nil filter can be stored in the table: its pattern still selects files (and wins over later patterns), and those files then fail the whole conversion")
+				}
+			})
+		}
+	}
 
 	/* 4. Newline termination in fromReader. */
 	checkNewline(p, rNL, fr, fd)
